@@ -21,6 +21,36 @@ CLAIMED = {
              "text. The quantifier is the property's: schemas check_schema accepts (acceptance itself is C11); crashes are "
              "C03's. Exhaustive within the universe bounds, sampled beyond.",
         design="5 C01"),
+    "C05": dict(
+        technique="TLA+ error model of Semantics.tla; TLC checks the union law (invariant) and the incremental law (action "
+                  "property) on every SchemaBuilder state and exports expected error bags replayed into iter_errors; "
+                  "recorded whole-schema and per-keyword-restriction error collections trace-validated by TLC (Trace_Errors)",
+        text="The specification states what an error is and TLC proves, on every reachable state of the schema-builder "
+             "machine, that the specification's own errors obey the property (static union law; thorough tier also the "
+             "incremental action property: adding a keyword nobody consults adds exactly its errors). The expected bag "
+             "of located errors (keyword, path, schema path, context) of every (schema, instance) of the universe is "
+             "replayed against the real iter_errors. For random deep schemas the real errors of the whole schema and of "
+             "every restriction {keyword + consulted siblings} are recorded; TLC re-derives each restriction, and checks "
+             "the union relation on the recorded errors including message hashes and contexts, and equality with the "
+             "specification's bag.",
+        note="Errors are compared as bags: order carries no documented meaning. Messages are compared only between runs of "
+             "the code. Reference-bearing schemas are exercised by C02/C07. Bounds as in C01 (quick: singles and family "
+             "pairs; thorough adds wrappers and the action properties).",
+        design="5 C05"),
+    "C06": dict(
+        technique="TLA+ Locate module (path navigation through reference hops, json_path rendering); TLC invariant C06Spec on "
+                  "the SchemaBuilder universe; every real error with its context closure recorded and judged clause by "
+                  "clause by TLC (Trace_Errors)",
+        text="Located-ness is a predicate of the specification (instance path reaches the recorded instance; keyword is the "
+             "last schema-path element; recorded subschema holds keyword and value; absolute schema path walked from the "
+             "root, hopping exactly at reference objects, reaches the value; absolute = parent absolute + relative; "
+             "json_path renders the absolute path). TLC checks it on the specification's own errors in every universe "
+             "state and then evaluates it on every error, top-level and in contexts, that the real code produced for "
+             "universe pairs and for random deep schemas. The documented exceptions (Draft 3 required, errors under "
+             "propertyNames, false-schema errors) are predicates of the spec.",
+        note="Trusted: TLC, encoder. Recorded fields come from the public attributes of ValidationError. Quick: up to 2 "
+             "invalid instances per universe schema + 1500 random schemas; thorough: 4 + 40000.",
+        design="5 C06"),
     "C08": dict(
         technique="TLA+ JsonEq spec; TLC enumerates pair/array universes (MC_C08, MC_C08U) with equivalence/congruence laws, "
                   "exports replayed into enum/const/uniqueItems; random deep pairs trace-validated by TLC (Trace_C08)",
